@@ -65,6 +65,7 @@ type optSet struct {
 	variant string
 	ctx     []byte
 	pool    []*bEntry
+	runKey  *bEntry
 }
 
 func (o *optSet) opts(zip bool) *ed25519.Options {
@@ -188,6 +189,23 @@ func mutate(o *optSet, base *bEntry, kind string, r *hx.Rng, so [][32]byte) *bEn
 		enc := so[r.Intn(len(so))]
 		e.key = enc[:]
 		e.A = hx.FromBytes(e.key, "smallA")
+		resign()
+	case "smallA0": // always the same small-order key (identity), so that adjacent entries share their key
+		e.key = so[0][:]
+		e.A = hx.FromBytes(e.key, "smallA0")
+		resign()
+	case "sameSigner": // one fixed honest signer per option set: runs of entries with the same key
+		if o.runKey == nil {
+			o.runKey = honest(o, hx.NewRng(int64(len(o.ctx))+977))
+		}
+		e.A, e.a, e.key = o.runKey.A, o.runKey.a, o.runKey.key
+		h := sha512.New()
+		h.Write(hx.Dom2(o.variant, o.ctx))
+		h.Write(e.key) // any deterministic nonce will do: R = [r]B with r known
+		h.Write(e.msg)
+		e.r = new(big.Int).Mod(refmodel.FromLE(h.Sum(nil)), refmodel.L)
+		e.R = hx.KT(e.r, 0, 0, "sameSigner")
+		copy(e.sig[:32], e.R.Bytes[:])
 		resign()
 	case "smallR":
 		enc := so[r.Intn(len(so))]
@@ -576,6 +594,8 @@ func runBatch() {
 				num, den = 1, 1
 			case chunky:
 				num, den = 1, 4
+			case kinds["smallA0"] || kinds["sameSigner"]:
+				num, den = 1, 2
 			case nb == 0:
 				num, den = 1, 40
 			case c.N <= 5:
@@ -583,8 +603,8 @@ func runBatch() {
 			default:
 				num, den = 1, 50
 			}
-		case "C17": // all-valid batches (incl. mixed-order keys / R, which are valid): the equation itself must accept
-			want = !isErr && only("mixedA", "mixedR")
+		case "C17": // all-valid batches (incl. mixed-order keys / R and same-signer runs, which are valid): the equation itself must accept
+			want = !isErr && only("mixedA", "mixedR", "sameSigner")
 			num, den = 1, 3
 			if nb > 0 {
 				num, den = 1, 12
@@ -596,10 +616,13 @@ func runBatch() {
 			want = !isErr && c.Zip && (kinds["smallA"] || kinds["smallR"] || kinds["mixedA"] || kinds["mixedR"])
 			num, den = 1, 14
 		case "C09": // small-order / mixed-order / undecodable key and R at every position of every chunking
-			want = !isErr && nb > 0 && (kinds["smallA"] || kinds["smallR"] || kinds["mixedA"] || kinds["mixedR"] || kinds["undecA"] || kinds["undecR"])
+			want = !isErr && nb > 0 && (kinds["smallA"] || kinds["smallR"] || kinds["mixedA"] || kinds["mixedR"] || kinds["undecA"] || kinds["undecR"] || kinds["smallA0"])
 			num, den = 1, 20
+			if kinds["smallA0"] {
+				num, den = 1, 1
+			}
 		case "C13":
-			want = isErr || nb > 0 && c.N <= 5
+			want = isErr || nb > 0 && c.N <= 5 || (nb == 0 && (c.Entropy == "zero" || c.Entropy == "ones") && c.N <= 70)
 			num, den = 1, 3
 		}
 		if !want {
